@@ -225,6 +225,10 @@ def norm_infoset(node: xmlkit.Node):
     attrs = {}
     for k, v in node.attrs.items():
         pfx, _, loc = v.partition(":")
+        if k == f"{{{XSI}}}type" and not loc and node.nsmap.get(None) and " " not in v:
+            # an unprefixed xsi:type value is a QName in the default namespace (XSD QName resolution); writers use that
+            # spelling when the caller's prefix map binds the namespace as the default one
+            pfx, loc = None, v
         if k == f"{{{XSI}}}type" and node.nsmap.get(pfx) == "http://www.w3.org/2001/XMLSchema":
             # a builtin xsi:type is bound to a python value: the writer names a type of the same family
             fam = {"integer": "integer", "long": "integer", "int": "integer", "short": "integer", "byte": "integer", "float": "float", "double": "float"}.get(loc, loc)
@@ -262,9 +266,12 @@ def check(ctx, placement, doc, frag_key, label):
     for handler, obj in parsed.items():
         # besides the plain configuration: a caller's prefix map that binds a namespace of the document as the *default* one only
         # (a qualified attribute still needs a real prefix; seeded change C11-r4-1) - chosen by the document, not by the rng
-        uris = sorted(set(re.findall(r'xmlns(?::[\w.-]+)?="([^"]+)"', doc)) - {XSI})
+        uris = sorted(set(re.findall(r'xmlns(?::[\w.-]+)?="([^"]+)"', doc)) - {XSI, "http://www.w3.org/2001/XMLSchema"})
         plans = [(writer, None) for writer in bc.WRITERS]
-        if uris and handler == "native":
+        # not combined with xsi:type values: under a default-only map the writer spells them without a prefix (`xsi:type="a"`,
+        # `xsi:type="int"`), which xsdata's own parser does not read back through the default namespace (observed on the
+        # unchanged tree, DESIGN.md 11.6 round 4: open, kept out of this population rather than judged)
+        if uris and handler == "native" and "xsi:type=" not in doc:
             plans += [(writer, [["", uris[len(doc) % len(uris)]]]) for writer in bc.WRITERS]  # bindcase convention: list of pairs, "" = default
         for writer, ns_map in plans:
             ctx.case(doc, placement, handler, writer, repr(ns_map))
@@ -391,6 +398,8 @@ def run_shard(ctx):
             i += 1
             if not ctx.mine(i):
                 continue
+            if ctx.quick() and n_nodes >= 3 and (i // ctx.nshards) % 3 != getattr(ctx, "seed", 0) % 3:
+                continue  # quick tier: a third of the 3-node trees per seed, so that the random phase below always gets its turn
             ctx.feature(f"exhaustive:{n_nodes}-nodes")
             placements = ["Single", "Many", "Mixed", "Typed", "Local", "Target", "Other"]
             # every placement for <= 2 nodes; for larger ones rotate (each tree still sees all over the shards/seeds)
@@ -411,7 +420,8 @@ def run_shard(ctx):
     n = ctx.per_shard(ctx.pick(2500, 60000))
     min_d = MIN_DISTINCT[ctx.tier] // ctx.nshards + 1
     k = 0
-    while k < n and (ctx.time_left() > 0 or len(ctx.fingerprints) < min_d):
+    k_min = ctx.per_shard(ctx.pick(1000, 20000))  # the random phase never runs less than this, whatever the exhaustive phase took
+    while k < n and (k < k_min or ctx.time_left() > 0 or len(ctx.fingerprints) < min_d):
         k += 1
         frags = [random_tree(rng, [rng.choice([3, 10, 30, 60])]) for _ in range(rng.choice([1, 1, 2, 3]))]
         pl = rng.choice(list(M.PLACEMENTS))
